@@ -20,9 +20,10 @@ import tempfile
 
 from harness.common import VERIF, enc, run_driver
 
-from insights.core import dr, filters, plugins
+from insights.core import dr, filters, plugins, spec_factory
 from insights.core.filters import add_filter, get_filters, apply_filters
-from insights.core.spec_factory import (SpecSet, RegistryPoint, simple_file, simple_command, first_of, glob_file,
+from insights.core.spec_factory import (SpecSet, RegistryPoint, simple_file, simple_command, first_of, glob_file, first_file,
+                                        foreach_collect,
                                         TextFileProvider)
 from insights.core.plugins import datasource, parser, combiner
 from insights.core.context import HostContext, HostArchiveContext
@@ -33,6 +34,7 @@ from insights.cleaner.filters import AllowFilter
 
 NO_OBF = sorted(DEFAULT_OBFUSCATIONS)
 FINDING_SPLIT = "host-content-resplit"
+FINDING_STREAM = "archive-stream-unfiltered"
 # characters at which str.splitlines() breaks a line but grep (and the file) does not
 BREAKS = ["\r", "\x0b", "\x0c", "\x1c", "\x1d", "\x1e", "\x85", "\u2028", "\u2029"]
 
@@ -551,33 +553,61 @@ def keeps_index(out, lines, i):
 
 
 def content_oracle(path, lines, allow, out, budgets=True, empties_pass=False, exact=False):
-    """the property on one path's output; returns a description of the first violation or None"""
+    """the property on one path's output; returns a description of the first violation or None.
+    Linear-time embeddings: pre[j] = least p with out[:j] embedded in lines[:p]; suf[j] = greatest q with
+    out[j:] embedded in lines[q:]; position i can be a kept one iff some j has out[j] == lines[i],
+    pre[j] <= i and suf[j+1] >= i+1."""
     keys = [k for k, _ in allow]
-    if not is_subseq(out, lines):
-        return "%s: output is not a sub-sequence of the original lines" % path
+    n, m = len(lines), len(out)
+    pre = [0] * (m + 1)
+    p = 0
+    for j in range(m):
+        while p < n and lines[p] != out[j]:
+            p += 1
+        if p == n:
+            return "%s: output is not a sub-sequence of the original lines" % path
+        p += 1
+        pre[j + 1] = p
     for l in out:
         if l and not any(k in l for k in keys):
-            return "%s: kept non-empty line %r contains no filter string" % (path, l)
+            return "%s: kept non-empty line %r contains no filter string" % (path, l[:80])
     if exact:
         want = [l for l in lines if any(k in l for k in keys)]
         if out != want:
-            return "%s: a budget-free path must keep exactly the matching lines" % path
+            return "%s: a budget-free path must keep exactly the matching lines (%d kept, %d match)" % (path, len(out), len(want))
         return None
+    suf = [n] * (m + 1)
+    q = n
+    for j in range(m - 1, -1, -1):
+        q -= 1
+        while lines[q] != out[j]:
+            q -= 1
+        suf[j] = q
+    where = {}
+    for j, l in enumerate(out):
+        where.setdefault(l, []).append(j)
+
+    def keeps(i):
+        return any(pre[j] <= i and suf[j + 1] >= i + 1 for j in where.get(lines[i], ()))
     for k, b in allow:
         idx = [i for i, l in enumerate(lines) if k in l]
         if not idx:
             continue
-        if not keeps_index(out, lines, idx[-1]):
+        if not keeps(idx[-1]):
             return "%s: the last line matching filter %r (line %d) was not kept" % (path, k, idx[-1])
         if budgets:
+            cnt = [0] * (m + 1)         # cnt[j] = lines of out[j:] containing k
+            for j in range(m - 1, -1, -1):
+                cnt[j] = cnt[j + 1] + (1 if k in out[j] else 0)
             for i in idx:
-                if keeps_index(out, lines, i):
+                if keeps(i):
                     continue
-                # line i is certainly dropped: the budget of k must be used up by kept lines below it
-                j = len(out)
-                while j > 0 and is_subseq(out[j - 1:], lines[i + 1:]):
-                    j -= 1
-                below = sum(1 for l in out[j:] if k in l)
+                # line i is certainly dropped: the budget of k must be used up by kept lines below it;
+                # the kept lines below i are at most the longest suffix of out that embeds below i
+                j = 0
+                while suf[j] < i + 1:
+                    j += 1
+                below = cnt[j]
                 if not (b > 0 and below >= b):
                     return "%s: line %d matching filter %r was dropped with its budget %d not used up (%d kept below)" % (path, i, k, b, below)
     return None
@@ -933,6 +963,165 @@ def run_load_histories(chk, rig, cases, stream="load-history"):
     return runs
 
 
+# =========================================================================== (d) every branch of load() / stream()
+
+BR_TOKENS = ["a", "b", "x", "-x", "ab", " ", ".", "é", "€", "foo", "0123456789", "lorem ipsum dolor "]
+SIZE_CLASSES = ["small", "below", "at", "above1", "above", "far"]
+
+
+def gen_branch_case(rng):
+    """a file placed around spec_factory.MAX_CONTENT_SIZE (lowered to K): well below / just below / exactly at /
+    one byte above / just above / far above, every line newline-terminated, multi-byte characters included"""
+    K = rng.choice([256, 1024, 4096])
+    cls = rng.choice(SIZE_CLASSES)
+    target = {"small": K // 4, "below": K - rng.randint(1, 12), "at": K, "above1": K + 1,
+              "above": K + rng.randint(2, 60), "far": K * rng.randint(2, 4) + rng.randint(0, 50)}[cls]
+    toks = rng.sample(BR_TOKENS, rng.randint(3, 6))
+    lines, total = [], 0
+    while total < target:
+        line = "".join(rng.choice(toks) for _ in range(rng.choice([0, 1, 2, 3, 5, 8])))
+        b = len(line.encode("utf-8")) + 1
+        if total + b > target:
+            line = "p" * (target - total - 1)       # pad to the exact size
+            b = target - total
+        lines.append(line)
+        total += b
+    keys = []
+    for _ in range(8):
+        k = "".join(rng.choice(toks) for _ in range(rng.choice([1, 1, 2])))
+        if k not in keys:
+            keys.append(k)
+        if len(keys) == rng.choice([1, 2, 3]):
+            break
+    allow = [[k, rng.choice([1, 2, 3, 10000, 10000])] for k in keys]
+    if rng.random() < 0.12:
+        allow = []          # a spec that is not filterable: read whole / tail, nothing else
+    return {"kind": "branch", "K": K, "cls": cls, "lines": lines, "allow": allow,
+            "creator": rng.choice(["simple", "glob", "first", "foreach"])}
+
+
+def read_part(data, K):
+    """ORACLE's own reading of 'the part the branch reads': the complete lines inside the last K bytes"""
+    if len(data) > K:
+        tail = data[len(data) - K:]
+        i = tail.find(b"\n")
+        data = tail[i + 1:] if i >= 0 else b""
+    return data.decode("utf-8", "surrogateescape").split("\n")[:-1]
+
+
+def run_branch_case(rig, c):
+    """returns impl answers, model lines, [(description, finding id or None)], tags"""
+    K, lines, allow = c["K"], c["lines"], [tuple(x) for x in c["allow"]]
+    tag = fresh("b")
+    sub = "br" + tag
+    os.makedirs(os.path.join(rig.dir, sub))
+    rel = os.path.join(sub, "f0.txt")
+    data = "".join(l + "\n" for l in lines).encode("utf-8")
+    with open(os.path.join(rig.dir, rel), "wb") as f:
+        f.write(data)
+    filterable = bool(allow)
+    pt = RegistryPoint(filterable=filterable, multi_output=c["creator"] in ("glob", "foreach"),
+                       no_obfuscate=list(NO_OBF), no_redact=True)
+    S = type("S" + tag, (SpecSet,), {"p": pt})
+    brokers = {}
+
+    def make(ctxcls, broker):
+        if c["creator"] == "simple":
+            return simple_file(rel, context=ctxcls)
+        if c["creator"] == "glob":
+            return glob_file(os.path.join(sub, "*.txt"), context=ctxcls)
+        if c["creator"] == "first":
+            return first_file([os.path.join(sub, "missing"), rel], context=ctxcls)
+
+        def names(broker):
+            return ["f0.txt"]
+        names.__name__ = "names" + fresh("n")
+        datasource(ctxcls)(names)
+        brokers[ctxcls] = dr.Broker()
+        for k in (HostContext, HostArchiveContext, "cleaner"):
+            if k in broker:
+                brokers[ctxcls][k] = broker[k]
+        brokers[ctxcls][names] = ["f0.txt"]
+        return foreach_collect(names, os.path.join(sub, "%s"), context=ctxcls)
+    A = type("A" + tag, (S,), {"p": make(HostArchiveContext, rig.ab)})
+    H = type("H" + tag, (S,), {"p": make(HostContext, rig.hb)})
+    for k, b in allow:
+        add_filter(S.p, k, b)
+    order = list(get_filters(A.p, True).items())
+    if list(get_filters(H.p, True).items()) != order:
+        order = sorted(order)       # never expected: both see the point's dict only
+
+    def prov(I, ctxcls, broker):
+        p = I.p(brokers.get(ctxcls, broker))
+        return p[0] if isinstance(p, list) else p
+
+    def quiet(f):
+        try:
+            return list(f())
+        except (ContentException, CalledProcessError):
+            return []
+    saved = spec_factory.MAX_CONTENT_SIZE
+    spec_factory.MAX_CONTENT_SIZE = K
+    try:
+        a_stream0 = quiet(lambda: prov(A, HostArchiveContext, rig.ab).stream())
+        pa = prov(A, HostArchiveContext, rig.ab)
+        a_content = quiet(lambda: pa.content)
+        a_stream1 = quiet(lambda: pa.stream())
+        if filterable:
+            ph = prov(H, HostContext, rig.hb)
+            h_content = quiet(lambda: ph.content)
+            h_stream0 = quiet(lambda: prov(H, HostContext, rig.hb).stream())
+    finally:
+        spec_factory.MAX_CONTENT_SIZE = saved
+    shutil.rmtree(os.path.join(rig.dir, sub), ignore_errors=True)
+
+    huge = len(data) > K
+    abranch = "tail" if huge else "whole"
+    ma, ml = m_allow(order), [enc(l) for l in lines]
+    impl = [abranch + "\t" + show_lines(a_content), show_lines(a_stream0), show_lines(a_stream1)]
+    model = ["\t".join(["lf", str(K), "0", ma] + ml), "\t".join(["sf", str(K), "0", "0", ma] + ml),
+             "\t".join(["sf", str(K), "0", "1", ma] + ml)]
+    tags = ["load:archive/" + abranch, "stream:archive/reopened",
+            "stream:archive/" + ("loaded-content" if a_content else "reopened(after empty load)"),
+            "creator:" + c["creator"], "size:" + c["cls"]]
+    fails = []
+    read = read_part(data, K)
+    if not filterable:
+        if a_content != read:
+            fails.append(("archive-load[%s]: an unfiltered spec must give the lines read, got %d lines for %d" % (abranch, len(a_content), len(read)), None))
+        tags.append("load:archive/unfiltered-spec")
+        return impl, model, fails, tags
+    # off-host, filters registered: every branch ends in the same post-filter
+    bad = content_oracle("archive-load[%s]" % abranch, read, order, a_content)
+    if bad:
+        fails.append((bad, None))
+    if not is_subseq(a_content, lines):
+        fails.append(("archive-load[%s]: not a sub-sequence of the file" % abranch, None))
+    # stream(): served from the loaded content -> same oracle; re-opened file -> listed finding when it shows
+    if a_content:
+        bad = content_oracle("archive-stream(after load)", read, order, a_stream1)
+        if bad:
+            fails.append((bad, None))
+    else:
+        bad = content_oracle("archive-stream(after an empty load)", lines, order, a_stream1, budgets=False)
+        if bad:
+            fails.append((bad, FINDING_STREAM))
+    bad = content_oracle("archive-stream(before load)", lines, order, a_stream0, budgets=False)
+    if bad:
+        fails.append((bad, FINDING_STREAM))     # predicate on the input: an off-host stream() that re-opens the file
+    if not is_subseq(a_stream0, lines):
+        fails.append(("archive-stream(before load): not a sub-sequence of the file", None))
+    # host: grep reads the whole file, whatever its size
+    impl += ["grep\t" + show_lines(h_content), show_lines(h_stream0)]
+    model += ["\t".join(["lf", str(K), "1", ma] + ml), "\t".join(["sf", str(K), "1", "0", ma] + ml)]
+    tags += ["load:host/grep", "stream:host/grep"]
+    for name, out in (("host-load[grep]", h_content), ("host-stream[grep]", h_stream0)):
+        bad = content_oracle(name, lines, order, out, exact=True)
+        if bad:
+            fails.append((bad, None))
+    return impl, model, fails, tags
+
+
 # =========================================================================== corpus / witnesses
 
 def load_corpus():
@@ -950,10 +1139,11 @@ def run(chk):
     rng = chk.rng
     quick = chk.tier == "quick"
     n_hist = 500 if quick else 8000
-    n_content = 2500 if quick else 40000
-    n_direct = 4000 if quick else 80000
+    n_content = 1500 if quick else 40000
+    n_direct = 3000 if quick else 80000
     n_bad = 300 if quick else 4000
     n_load = 400 if quick else 8000
+    n_branch = 300 if quick else 6000
     chk.rule = ("(a) histories of 4-12 add_filter/get_filters/provider-construction operations over a fresh generated "
                 "component graph (1-3 registry points with random filterable/raw flags, 1-2 implementation classes using "
                 "simple_file/simple_command/first_of/shared datasource objects, derived datasources, parsers, combiners, "
@@ -963,11 +1153,16 @@ def run(chk):
                 "same datasource through TextFileProvider under HostArchiveContext (simple_file and glob_file / multi-output), "
                 "look-ups, further registrations, clean_content / apply_filters / filter_content on the shared dict; "
                 "get_filters of all three components compared with the model after every step; non-trivial = at least two loads; "
+                "(d) load branches: spec_factory.MAX_CONTENT_SIZE lowered to 256/1024/4096, files well below / just below / exactly at / "
+                "one byte above / just above / far above it (multi-byte characters included), providers made by simple_file, glob_file, "
+                "first_file and foreach_collect under HostArchiveContext (whole-file and truncated-tail branch + post-filter; stream() "
+                "before and after load) and under HostContext (grep branch of load() and stream()); branch distribution under "
+                "input_distribution 'branch-*'; non-trivial = filters registered; "
                 "(b) files of 0-13 lines over tokens with regex metacharacters, leading dashes, blanks, tabs, non-ASCII, "
                 "empty and duplicate lines, 1-3 filters with budgets 1-3 or 10000; non-trivial = some line kept and some dropped")
     chk.assumptions = [
         "grep -F -e is modelled as 'keep exactly the lines containing some pattern' (IV.Filters.grepF); validated against /usr/bin/grep on every generated file",
-        "lines longer than MAX_LINE_LENGTH (1 MB, truncated by the cleaner) and files above MAX_CONTENT_SIZE are outside the model",
+        "lines longer than MAX_LINE_LENGTH (1 MB, truncated by the cleaner) are outside the model; MAX_CONTENT_SIZE is lowered in the harness the way the project's own test does, files in the load-branches stream end every line with a newline",
         "redaction and obfuscation are switched off in the cleaner paths (C08-C10 cover them); the component graph is fixed during a history",
         "the order of keys inside FILTERS / get_filters' dict depends on string hashing; compared as sorted items, the theorems hold for every key order",
     ]
@@ -976,24 +1171,28 @@ def run(chk):
     open(os.path.join(scratch, "f"), "w").write("x\n")
     rig = ContentRig()
     try:
-        _run(chk, rng, quick, n_hist, n_content, n_direct, n_bad, n_load, scratch, rig)
+        _run(chk, rng, quick, n_hist, n_content, n_direct, n_bad, n_load, n_branch, scratch, rig)
     finally:
         rig.close()
         shutil.rmtree(scratch, ignore_errors=True)
 
 
-def _run(chk, rng, quick, n_hist, n_content, n_direct, n_bad, n_load, scratch, rig):
+def _run(chk, rng, quick, n_hist, n_content, n_direct, n_bad, n_load, n_branch, scratch, rig):
     corpus = load_corpus()
 
     # ---- corpus: regression cases and the known-finding witness
     hist_cases = []
     load_cases = []
+    branch_cases = []
     for c in corpus:
         if c["kind"] == "history":
             hist_cases.append((c["spec"], c["ops"]))
             chk.witnesses.append(c["file"])
         elif c["kind"] == "loadhist":
             load_cases.append(c["ops"])
+            chk.witnesses.append(c["file"])
+        elif c["kind"] == "branch":
+            branch_cases.append(c)
             chk.witnesses.append(c["file"])
         elif c["kind"] == "content":
             impl, model, fails, order = run_content_case(rig, c["lines"], [tuple(x) for x in c["allow"]], with_command=True)
@@ -1047,6 +1246,30 @@ def _run(chk, rng, quick, n_hist, n_content, n_direct, n_bad, n_load, scratch, r
             chk.count(t)
         chk.count("load-history:loads=%d" % min(nloads, 9))
     chk.sample({"load-history": load_cases[-1][:5]})
+
+    # ---- (d) every branch of load() / stream(): whole file, truncated tail, grep; all provider creators
+    ncorp = len(branch_cases)
+    for _ in range(n_branch):
+        branch_cases.append(gen_branch_case(rng))
+    cases, impl_all, model_all = [], [], []
+    for i, c in enumerate(branch_cases):
+        impl, model, fails, tags = run_branch_case(rig, c)
+        clean = dict((k, v) for k, v in c.items() if k not in ("file", "note", "finding"))
+        chk.case(("branch", json.dumps(clean, sort_keys=True)), bool(c["allow"]))
+        for t in tags:
+            chk.count("branch-" + t)
+        for desc, fid in fails:
+            if i < ncorp and fid is not None and fid == c.get("finding"):
+                chk.finding_reproduced(fid)
+            else:
+                chk.failure(desc, clean, finding=fid)
+        for a in impl:
+            cases.append(clean)
+        impl_all.extend(impl)
+        model_all.extend(model)
+    out = run_driver("C07", model_all)
+    chk.compare("load-branches", cases, impl_all, out)
+    chk.sample({"branch-case": dict((k, (v if k != "lines" else "%d lines" % len(v))) for k, v in branch_cases[-1].items())})
 
     # ---- (b) the code paths on the same file
     cases, impl_all, model_all = [], [], []
@@ -1139,6 +1362,18 @@ def replay(data):
                 bad = True
         finally:
             shutil.rmtree(scratch, ignore_errors=True)
+    elif c["kind"] == "branch":
+        rig = ContentRig()
+        try:
+            impl, model, fails, tags = run_branch_case(rig, c)
+            out = run_driver("C07", model)
+            for name, a, b in zip(("archive load", "archive stream before load", "archive stream after load", "host load", "host stream"), impl, out):
+                print("  %-28s impl=%s\n  %-28s model=%s%s" % (name, a[:300], "", b[:300], "" if a == b else "   <-- differ"))
+            for desc, fid in fails:
+                print("ORACLE%s: %s" % (" (instance of the listed finding %s)" % fid if fid else "", desc))
+                bad = True
+        finally:
+            rig.close()
     elif c["kind"] == "loadhist":
         rig = ContentRig()
         try:
